@@ -209,10 +209,8 @@ def gen_case(rng, maxlen, stream):
             ops.append(["find", a, b, rng.choice([0, 0, 7, -1, 1000])])
         elif r < 0.36:
             ops.append(["findall", [list(p) for p in rng.sample(ALL_PAIRS, rng.randint(0, 12))], rng.choice([0, 5])])
-        elif r < 0.45:
+        elif r < 0.47:
             ops.append(["table", rng.choice(TABLES)])
-        elif r < 0.50:
-            ops.append(["cached"])
         elif r < 0.53:
             ops.append([rng.choice(["gdump", "kdump"])])
         elif r < 0.66:
@@ -295,7 +293,7 @@ def gen_case(rng, maxlen, stream):
                 ops.append(["reloadkerning"])
                 sh.kerning = dict(sh.disk_kerning)
         else:
-            ops.append([rng.choice(["reloadgroups", "reloadkerning"])] if rng.random() < 0.1 else ["cached"])
+            ops.append([rng.choice(["reloadgroups", "reloadkerning"])] if rng.random() < 0.1 else ["table", rng.choice(TABLES)])
     # --- closing sweep: every pair, every table
     ops.append(["findall", ALL_PAIRS, 0])
     for t in rng.sample(TABLES, 2):
@@ -304,7 +302,7 @@ def gen_case(rng, maxlen, stream):
 
 
 def generate(rng, tier):
-    n, maxlen = (700, 22) if tier == "quick" else (24000, 60)
+    n, maxlen = (2500, 22) if tier == "quick" else (30000, 60)
     for i in range(n):
         r = rng.random()
         stream = "valid" if r < 0.55 else ("load" if r < 0.8 else "invalid")
@@ -486,14 +484,15 @@ class World(object):
             return [Atom("ints")] + [self._int(kerning.find((a, b), op[2])) for a, b in op[1]]
         if k == "table":
             t = f.groups.getRepresentation(REPR[op[1]])
+            # the property speaks of the tables' content, not of their iteration order
             if op[1].startswith("side"):
-                return [Atom("groups"), [[n, list(ms)] for n, ms in t.items()]]
-            return [Atom("g2g"), [[x, g] for x, g in t.items()]]
+                return [Atom("groups"), [Atom("set")] + [[n, list(ms)] for n, ms in t.items()]]
+            return [Atom("g2g"), [Atom("set")] + [[x, g] for x, g in t.items()]]
         if k == "cached":
             g = f.groups
             return [Atom("bools")] + [bool(g.hasCachedRepresentation(REPR[t])) for t in TABLES]
         if k == "gdump":
-            return [Atom("groups"), [[n, list(ms)] for n, ms in f.groups.items()]]
+            return [Atom("dump"), [[n, list(ms)] for n, ms in f.groups.items()]]
         if k == "kdump":
             return [Atom("kern"), [[a, b, self._int(v)] for (a, b), v in f.kerning.items()]]
         if k == "reloadgroups":
@@ -586,8 +585,9 @@ def check_step(w, ops, i, out, stats):
                             groups=groups, kerning=[[x, y, z] for (x, y), z in kerning.items()])
         return None
     t = op[1]
-    got = dict((x[0], x[1]) for x in out[1])
-    if len(got) != len(out[1]):
+    items = out[1][1:]
+    got = dict((x[0], x[1]) for x in items)
+    if len(got) != len(items):
         return dict(clause="C19/table", signature="C19/table/%s/duplicate-key" % t, step=i, op=op, observed=repr(out))
     exp = ref_table(groups, t)
     stats["table.checked"] = stats.get("table.checked", 0) + 1
@@ -607,9 +607,14 @@ def run_impl(case):
         cached_before = False
         filled = edited_after_fill = observed_after_edit = False
         for i, op in enumerate(ops):
+            k = op[0]
+            if k in GROUP_EDITS:
+                # statistics only (peeks without triggering the lazy load): was anything cached when the edit came?
+                g = w.font._groups
+                if g is not None and any(g.hasCachedRepresentation(REPR[t]) for t in TABLES):
+                    stats["edit-with-tables-cached." + k] = stats.get("edit-with-tables-cached." + k, 0) + 1
             out = w.do(op)
             outs.append(out)
-            k = op[0]
             stats["op." + k] = stats.get("op." + k, 0) + 1
             if isinstance(out, list) and out and out[0] == "err":
                 stats["err.%s.%s" % (k, out[1])] = stats.get("err.%s.%s" % (k, out[1]), 0) + 1
